@@ -57,6 +57,22 @@ CMP_TRAIT = {'std::cmp::PartialOrd::lt': 'lt', 'std::cmp::PartialOrd::le': 'le',
              'std::cmp::PartialOrd::ge': 'ge', 'std::cmp::PartialEq::eq': 'eq', 'std::cmp::PartialEq::ne': 'ne'}
 
 
+IDENTITY_TRAITS = ('std::ops::Deref', 'std::ops::DerefMut', 'std::convert::AsRef', 'std::convert::AsMut', 'std::borrow::Borrow',
+                   'std::borrow::BorrowMut', 'std::clone::Clone', 'std::convert::Into', 'std::convert::From',
+                   'std::iter::IntoIterator', 'std::borrow::ToOwned')
+
+
+def is_identity_call(ext):
+    if ext in IDENTITY_PATHS_SUFFIX:
+        return True
+    if ext.startswith('<') and ' as ' in ext:
+        tr = ext[ext.rfind(' as ') + 4:]
+        tr, _, meth = tr.partition('>::')
+        if tr in IDENTITY_TRAITS and meth in IDENTITY_CALLS:
+            return True
+    return False
+
+
 def mk_cmp(op, a, b):
     """Canonical comparison term: only lt / le / eq / ne; gt(a,b)=lt(b,a), ge(a,b)=le(b,a)."""
     op = op.lower()
@@ -192,13 +208,15 @@ class SymEx:
             return v if v is not None else ('unk', 'uninit:%s:_%d' % (key[1], key[2]))
         if k in ('fld', 'payload', 'index'):
             base = key[1]
-            if self._rooted_in_local(base):
-                bv = self.load(st, base, b)
+            bv = self.load(st, base, b) if self._rooted_in_local(base) else base
+            if bv is not base or (isinstance(bv, tuple) and bv and bv[0] in ('aggr', 'tuple', 'closure', 'ovfpair')):
                 if k == 'fld':
-                    return self._proj_value(st, bv, key[2], None, b)
-                if k == 'payload':
-                    return self._proj_value(st, bv, key[3], key[2], b)
-                return ('index', bv, key[2])
+                    r = self._proj_value(st, bv, key[2], None, b)
+                elif k == 'payload':
+                    r = self._proj_value(st, bv, key[3], key[2], b)
+                else:
+                    r = ('index', bv, key[2])
+                return r
         return key
 
     def _rooted_in_local(self, key):
@@ -211,7 +229,8 @@ class SymEx:
         if variant is not None:
             if v[0] == 'aggr' and v[2] == variant:
                 return v[3][name_or_idx] if name_or_idx < len(v[3]) else ('unk', 'fieldidx')
-            return self.load(st, ('payload', v, variant, name_or_idx), b)
+            k2 = ('payload', v, variant, name_or_idx)
+            return st.heap.get(k2, k2)
         if v[0] == 'aggr':
             idx = name_or_idx if isinstance(name_or_idx, int) else self._field_index(v[1], v[2], name_or_idx)
             if idx is not None and idx < len(v[3]):
@@ -224,7 +243,8 @@ class SymEx:
                 return v[2][idx]
         if v[0] == 'ovfpair' and isinstance(name_or_idx, int):
             return v[1] if name_or_idx == 0 else ('ovf', v[1])
-        return self.load(st, ('fld', v, name_or_idx), b)
+        k2 = ('fld', v, name_or_idx)
+        return st.heap.get(k2, k2)
 
     def _field_index(self, adt, variant, name):
         a = self.prog.adts.get(adt)
@@ -706,8 +726,16 @@ class SymEx:
             return ('aggr', RESULT, 'Ok', (args[0],))
         if ext in UNWRAP_CALLS and args:
             return self.payload_of(st, self.load(st, args[0], b), ext)
-        if ext in IDENTITY_PATHS_SUFFIX and args:
+        if args and is_identity_call(ext):
             return args[0]
+        if ext == 'std::default::Default::default' or ext.endswith(' as std::default::Default>::default'):
+            dty = b.local_ty(dest['l'])['s'] if not dest.get('p') else ''
+            if dty in ('u8', 'u16', 'u32', 'u64', 'u128', 'usize', 'i8', 'i16', 'i32', 'i64', 'i128', 'isize'):
+                return ('c', 0)
+            if dty == 'bool':
+                return ('c', False)
+            if dty.startswith('std::option::Option<'):
+                return NONE
         if ext in ('std::mem::drop', 'core::mem::drop') and args:
             st.events.append(('call', ext, tuple(args), line, b.nid, None))
             return ('c', '()')
@@ -732,6 +760,18 @@ class SymEx:
                 return 'handled'
             st.events.append(('call', 'callback', tuple([clo] + list(cargs)), line, b.nid, None))
             return ('call', 'callback', tuple([clo] + list(cargs)))
+        if ext == 'std::iter::Iterator::for_each' and len(args) == 2 and (raw or args)[1][0] == 'closure':
+            clo = (raw or args)[1]
+            # zero iterations
+            s0 = st.fork()
+            st.events.append(('call', ext, tuple(args), line, b.nid, None))
+            s0.events.append(('call', ext, tuple(args), line, b.nid, None))
+            resume(s0, ('c', '()'))
+            # one abstract iteration with an arbitrary element of the iterated sequence
+            item = ('elem', args[0])
+            if self.call_closure(clo, [item], st, depth, out, lambda s2, rv: resume(s2, ('c', '()'))):
+                return 'handled'
+            return ('c', '()')
         if ext in ('std::cmp::Ord::max', 'std::cmp::Ord::min', 'std::cmp::max', 'std::cmp::min') and len(args) == 2:
             return ('bin', last, args[0], args[1])
         if last in ('saturating_add', 'saturating_sub', 'wrapping_add', 'wrapping_sub', 'wrapping_mul',
